@@ -25,6 +25,7 @@ type evalCtx struct {
 	at     *ssa.BasicBlock
 	qdepth int
 	inOld  bool   // evaluating inside old(...): parameters denote their entry values
+	freshPool *[]uint64 // caller-side application of a contract: references reserved for freshref(...) in its ensures clauses
 	sink   *State // live state that receives definitional facts about fresh results of contract calls inside pure evaluation
 }
 
@@ -465,6 +466,27 @@ func (e *Engine) lookupVar(st *State, fr *Frame, name string, at *ssa.BasicBlock
 			if later == nil {
 				return phiVal, true
 			}
+		}
+	}
+	// an address-taken local lives in an Alloc carrying its name: its current value is the content of that cell (a
+	// DebugRef of the declaration would give the initial value only)
+	{
+		var bestA *ssa.Alloc
+		for v := range fr.regs {
+			a, ok := v.(*ssa.Alloc)
+			if !ok || a.Comment != name || a.Parent() != fn {
+				continue
+			}
+			if at != nil && !(a.Block() == at || a.Block().Dominates(at)) {
+				continue
+			}
+			if bestA == nil || bestA.Block().Dominates(a.Block()) {
+				bestA = a
+			}
+		}
+		if bestA != nil {
+			r := fr.regs[bestA]
+			return st.loadAt(ptrInfo(r), deref(r.T)), true
 		}
 	}
 	// DebugRefs: choose the dominating definition closest to `at`
@@ -981,6 +1003,28 @@ func (e *Engine) evalCall(c *evalCtx, n *ECall) Val {
 			s := e.resolveAlias(c.st, streamRef(e.eval(c, n.Args[0])))
 			i := toWidth(e.eval(c, n.Args[1]).t(), 64, false)
 			return Val{types.Typ[types.Uint8], []*Term{c.st.loadLeaf("bs|data", []*Term{s, i}, BV(8))}}
+		case "freshref":
+			// freshref(x): the object x refers to was allocated during the call. Callee side (proof of the ensures
+			// clause): its reference lies above the allocation watermark at entry. Caller side (use of the clause): it is
+			// a reference reserved at the call, distinct from every object the caller knows.
+			v := e.eval(c, n.Args[0])
+			r := v.L[0]
+			switch v.T.Underlying().(type) {
+			case *types.Interface:
+				r = v.L[1]
+			}
+			if c.freshPool != nil {
+				if len(*c.freshPool) == 0 {
+					panic(fmt.Errorf("freshref: no reserved reference left"))
+				}
+				R := (*c.freshPool)[0]
+				*c.freshPool = (*c.freshPool)[1:]
+				return boolVal(Eq(r, BVConst(R, 64)))
+			}
+			if e.cur == nil || e.cur.entry == nil {
+				panic(fmt.Errorf("freshref outside a function proof"))
+			}
+			return boolVal(Ult(BVConst(e.cur.entry.nextRef, 64), r))
 		case "broken":
 			// broken(w): every Write on the stream w fails (the meaning of a "broken connection"); the writer model
 			// assumes !broken(w) on each successful Write
